@@ -298,8 +298,11 @@ class Switch(Generic[R], GenerativeFunction[R]):
         if Diff.tree_tangent(idx_diff) == UnknownChange:
             weight += score - trace.get_score()
 
-        # TODO: this is totally wrong, fix in future PR.
-        bwd_request: Update = rets[0][3]
+        # The backward constraint is the one of the branch that ran: the other
+        # branches' (placeholder) constraints are masked off by the index.
+        bwd_request: Update = Update(
+            ChoiceMap.switch(new_idx, list(r[3].constraint for r in rets))
+        )
 
         return (
             SwitchTrace(self, primals, subtraces, retval, score),
